@@ -459,6 +459,72 @@ type c10Meta struct {
 	BadArg bool `json:"bad_arg,omitempty"`
 	// Sub: the request is a subscription whose root selection is defective (Field holds it)
 	Sub bool `json:"sub,omitempty"`
+	// Borrow (1: cat first, 2: dog first): another small schema - interface Pet { name }, C10PetCat
+	// declares name(loud: Boolean), C10PetDog declares name without arguments; the request selects
+	// name(loud: true) on the members of a [Pet] list holding one of each
+	Borrow int `json:"borrow,omitempty"`
+}
+
+const c10BorrowSDL = `type Query { pets: [Pet] }
+interface Pet { name: String }
+type C10PetCat implements Pet { name(loud: Boolean): String }
+type C10PetDog implements Pet { name: String }
+`
+
+// C10PetCat / C10PetDog are bound to the object types of their names.
+type C10PetCat struct{ calls *[]string }
+type C10PetDog struct{ calls *[]string }
+
+func (c *C10PetCat) Resolve(field *ggql.Field, args map[string]interface{}) (interface{}, error) {
+	*c.calls = append(*c.calls, fmt.Sprintf("C10PetCat.%s%v", field.Name, args))
+	return "cat", nil
+}
+func (d *C10PetDog) Resolve(field *ggql.Field, args map[string]interface{}) (interface{}, error) {
+	*d.calls = append(*d.calls, fmt.Sprintf("C10PetDog.%s%v", field.Name, args))
+	return "dog", nil
+}
+
+type c10BorrowRoot struct {
+	order int
+	calls *[]string
+}
+
+func (r *c10BorrowRoot) Resolve(field *ggql.Field, args map[string]interface{}) (interface{}, error) {
+	switch field.Name {
+	case "query":
+		return r, nil
+	case "pets":
+		cat, dog := &C10PetCat{calls: r.calls}, &C10PetDog{calls: r.calls}
+		if r.order == 1 {
+			return []interface{}{cat, dog}, nil
+		}
+		return []interface{}{dog, cat, dog}, nil
+	}
+	return nil, nil
+}
+
+func checkC10Borrow(m *c10Meta) (ds []hx.Discrepancy, res map[string]interface{}) {
+	var calls []string
+	root := ggql.NewRoot(&c10BorrowRoot{order: m.Borrow, calls: &calls})
+	if err := root.ParseString(c10BorrowSDL); err != nil {
+		return []hx.Discrepancy{{Kind: "setup", Detail: err.Error()}}, nil
+	}
+	text := `{ pets { name(loud: true) } }`
+	func() {
+		defer func() { _ = recover() }()
+		res = root.ResolveString(text, "", nil)
+	}()
+	ctx := fmt.Sprintf("\nschema:\n%srequest: %s (the list holds %s)\nresolver calls: %v\nresponse: %s", c10BorrowSDL, text, map[int]string{1: "a cat, then a dog", 2: "a dog, a cat, a dog"}[m.Borrow], calls, hx.Show(hx.Norm(res)))
+	for _, c := range calls {
+		if strings.HasPrefix(c, "C10PetDog.name") && strings.Contains(c, "loud") {
+			ds = append(ds, hx.Discrepancy{Kind: "resolver-invoked", Detail: "C10PetDog.name declares no argument loud, yet its resolver was invoked with it (the argument was checked against the type of the first member only)" + ctx})
+			return
+		}
+	}
+	if errs, _ := res["errors"].([]interface{}); len(errs) == 0 {
+		ds = append(ds, hx.Discrepancy{Kind: "no-error", Detail: "an argument one member's type does not declare produced no error" + ctx})
+	}
+	return
 }
 
 const c10MetaSDL = `schema { query: Root subscription: Feed }
@@ -510,6 +576,8 @@ func genC10Meta(t *rapid.T) *c10Meta {
 		// an argument the meta field does not declare (alone, or next to the declared one)
 		m.Path, m.BadArg = nil, true
 		m.Field = rapid.SampledFrom([]string{`__type(foo: "Query") { name }`, `__type(name: "Query", foo: 1) { name }`, `__schema(x: 1) { queryType { name } }`, `__type(nam: "Root") { kind }`}).Draw(t, "metaBadArg")
+	case 2:
+		m.Path, m.Borrow = nil, rapid.IntRange(1, 2).Draw(t, "borrowOrder")
 	case 1:
 		// a subscription whose root selection is defective: the error has to come back here too
 		m.Path, m.Sub = nil, true
@@ -519,6 +587,9 @@ func genC10Meta(t *rapid.T) *c10Meta {
 }
 
 func checkC10Meta(m *c10Meta) (ds []hx.Discrepancy, res map[string]interface{}) {
+	if m.Borrow > 0 {
+		return checkC10Borrow(m)
+	}
 	add := func(kind, format string, args ...interface{}) {
 		ds = append(ds, hx.Discrepancy{Kind: kind, Detail: fmt.Sprintf(format, args...)})
 	}
@@ -827,7 +898,7 @@ func TestC10(t *testing.T) {
 	defer run.Flush()
 	classes := func(cc *c10Case, res map[string]interface{}) (bool, []string) {
 		if cc.Meta != nil {
-			return true, []string{"meta-field-scenario", fmt.Sprintf("meta-field-depth=%d", len(cc.Meta.Path)), "strategy=" + cc.Meta.Strat, fmt.Sprintf("meta-undeclared-argument=%v", cc.Meta.BadArg), fmt.Sprintf("defective-subscription-root=%v", cc.Meta.Sub)}
+			return true, []string{"meta-field-scenario", fmt.Sprintf("meta-field-depth=%d", len(cc.Meta.Path)), "strategy=" + cc.Meta.Strat, fmt.Sprintf("meta-undeclared-argument=%v", cc.Meta.BadArg), fmt.Sprintf("defective-subscription-root=%v", cc.Meta.Sub), fmt.Sprintf("argument-declared-by-one-member-type-only=%v", cc.Meta.Borrow > 0)}
 		}
 		df := cc.Defect
 		cl := []string{"strategy=" + stratName(cc.Case), "defect=" + df.Kind, "container=" + df.ConKind, fmt.Sprintf("response-key-selected-before=%v", df.KeyTaken), fmt.Sprintf("required-argument-written-as-valueless-variable=%v", df.ViaVar),
